@@ -107,7 +107,7 @@ theorem fieldsOf_keys (e : Entry) (rn : Nat) : ∀ f ∈ fieldsOf e rn, KeyOK f 
 theorem serve_log_inv (q : Req) (e : Entry) (h : (serve q).log = some e) :
     ∃ p d, q.dev = .ok p d ∧ p.qlog = true ∧ (e.ip ≠ none → p.iplog = true) ∧ e.prof = p.id ∧ e.dev = d
       ∧ q.port0 = false ∧ q.globBlockIP = false ∧ q.globBlockHost = false ∧ q.profBlock = false
-      ∧ q.rlDrop = false ∧ q.special = false ∧ q.debug = false ∧ q.ctxErr = false ∧ q.upErr = false
+      ∧ q.badECS = false ∧ rlDropEff q = false ∧ q.special = false ∧ q.debug = false ∧ q.ctxErr = false ∧ q.upErr = false
       ∧ e.name = q.name ∧ e.qtype = q.qtype ∧ e.proto = q.proto ∧ e.reqRes = q.reqRes
       ∧ e.respRes = respResOf q ∧ e.rcode = (filteredResp q).rcode ∧ e.reqId = q.reqId
       ∧ e.timeMs = q.startMs ∧ (∀ a, e.ip = some a → a = q.remoteIP) := by
@@ -123,27 +123,29 @@ theorem serve_log_inv (q : Req) (e : Entry) (h : (serve q).log = some e) :
         · simp at h
         · split at h
           · simp at h
-          · simp only [initialmw, mainmw] at h
-            split at h
+          · split at h
             · simp at h
-            · split at h
+            · simp only [initialmw, mainmw] at h
+              split at h
               · simp at h
-              · simp only [Bool.false_eq_true, if_false, record] at h
-                cases hd : q.dev with
-                | ok p d =>
-                  simp only [hd, DevRes.data] at h
-                  split at h
-                  · simp at h
-                  · simp only [Option.some.injEq] at h
-                    subst h
-                    refine ⟨p, d, rfl, ?_⟩
-                    simp_all [DevRes.data]
-                | _ => simp [hd, DevRes.data] at h
+              · split at h
+                · simp at h
+                · simp only [Bool.false_eq_true, if_false, record] at h
+                  cases hd : q.dev with
+                  | ok p d =>
+                    simp only [hd, DevRes.data] at h
+                    split at h
+                    · simp at h
+                    · simp only [Option.some.injEq] at h
+                      subst h
+                      refine ⟨p, d, rfl, ?_⟩
+                      simp_all [DevRes.data]
+                  | _ => simp [hd, DevRes.data] at h
 
 theorem serve_bill_inv (q : Req) (b : Bill) (h : (serve q).bill = some b) :
     ∃ p d, q.dev = .ok p d ∧ b.dev = d ∧ b.proto = q.proto
       ∧ q.port0 = false ∧ q.globBlockIP = false ∧ q.globBlockHost = false ∧ q.profBlock = false
-      ∧ q.rlDrop = false := by
+      ∧ q.badECS = false ∧ rlDropEff q = false := by
   unfold serve at h
   split at h
   · simp at h
@@ -156,24 +158,26 @@ theorem serve_bill_inv (q : Req) (b : Bill) (h : (serve q).bill = some b) :
         · simp at h
         · split at h
           · simp at h
-          · simp only [initialmw, mainmw] at h
-            split at h
+          · split at h
             · simp at h
-            · split at h
+            · simp only [initialmw, mainmw] at h
+              split at h
               · simp at h
-              · simp only [Bool.false_eq_true, if_false, record] at h
-                cases hd : q.dev with
-                | ok p d =>
-                  simp only [hd, DevRes.data] at h
-                  refine ⟨p, d, rfl, ?_⟩
-                  split at h
-                  · simp only [Option.some.injEq] at h
-                    subst h
-                    simp_all [DevRes.data]
-                  · simp only [Option.some.injEq] at h
-                    subst h
-                    simp_all [DevRes.data]
-                | _ => simp [hd, DevRes.data] at h
+              · split at h
+                · simp at h
+                · simp only [Bool.false_eq_true, if_false, record] at h
+                  cases hd : q.dev with
+                  | ok p d =>
+                    simp only [hd, DevRes.data] at h
+                    refine ⟨p, d, rfl, ?_⟩
+                    split at h
+                    · simp only [Option.some.injEq] at h
+                      subst h
+                      simp_all [DevRes.data]
+                    · simp only [Option.some.injEq] at h
+                      subst h
+                      simp_all [DevRes.data]
+                  | _ => simp [hd, DevRes.data] at h
 
 /-! ## The log file under concurrent writers: the ownership invariant -/
 
@@ -272,4 +276,280 @@ theorem splitLines_line (body rest : Str) (h : ∀ c ∈ body, c ≠ 10) :
     have := ih (fun x hx => h x (List.mem_cons_of_mem _ hx))
     simp [splitLines, hc, this]
 
+/-! ## The independent reader (`lexLine`) on encoded lines -/
+
+def pre (u : Str) (p : Str × Str) : Str × Str := (u ++ p.1, p.2)
+
+/-- `u` is a whole number of string-body units: scanning it from the plain state consumes exactly
+`u` and ends in the plain state. -/
+def Unit (u : Str) : Prop := ∀ r, scanStr 0 (u ++ r) = (scanStr 0 r).map (pre u)
+
+theorem unit_nil : Unit [] := by
+  intro r
+  have : pre [] = id := by funext p; rfl
+  simp [this]
+
+theorem unit_append {u v : Str} (hu : Unit u) (hv : Unit v) : Unit (u ++ v) := by
+  intro r
+  rw [List.append_assoc, hu, hv, Option.map_map]
+  congr 1
+  funext p
+  simp [pre]
+
+theorem unit_plain (b : Nat) (h1 : 32 ≤ b) (h2 : b ≠ 34) (h3 : b ≠ 92) : Unit [b] := by
+  intro r
+  have : ¬ b < 32 := by omega
+  simp [scanStr, h2, h3, this]
+  rfl
+
+theorem unit_simple (x : Nat) (hx : isSimpleEscape x = true) : Unit [92, x] := by
+  intro r
+  have hu : x ≠ 117 := by
+    intro h; subst h; simp [isSimpleEscape] at hx
+  simp [scanStr, hu, hx, Option.map_map]
+  rfl
+
+theorem unit_u (a b c d : Nat) (ha : isHex a = true) (hb : isHex b = true) (hc : isHex c = true)
+    (hd : isHex d = true) : Unit [92, 117, a, b, c, d] := by
+  intro r
+  simp [scanStr, ha, hb, hc, hd, Option.map_map]
+  rfl
+
+theorem isHex_hexDigit (n : Nat) (h : n < 16) : isHex (hexDigit n) = true := by
+  unfold hexDigit isHex
+  split <;> simp <;> omega
+
+theorem unit_escAscii (b : Nat) (h : b < 128) : Unit (escAscii b) := by
+  unfold escAscii
+  split
+  · rename_i hb
+    rcases hb with rfl | rfl
+    · exact unit_simple 34 (by decide)
+    · exact unit_simple 92 (by decide)
+  · split
+    · exact unit_simple 98 (by decide)
+    · split
+      · exact unit_simple 102 (by decide)
+      · split
+        · exact unit_simple 110 (by decide)
+        · split
+          · exact unit_simple 114 (by decide)
+          · split
+            · exact unit_simple 116 (by decide)
+            · split
+              · exact unit_u 48 48 _ _ (by decide) (by decide) (isHex_hexDigit _ (by omega)) (isHex_hexDigit _ (by omega))
+              · rename_i h1 h2 h3 h4 h5 h6 h7
+                exact unit_plain b (by omega) (by omega) (by omega)
+
+theorem unit_badSeq : Unit badSeq := unit_u 102 102 102 100 (by decide) (by decide) (by decide) (by decide)
+
+theorem unit_lineSep (l : Nat) (h : l = 56 ∨ l = 57) : Unit (lineSep l) := by
+  rcases h with rfl | rfl
+  · exact unit_u 50 48 50 56 (by decide) (by decide) (by decide) (by decide)
+  · exact unit_u 50 48 50 57 (by decide) (by decide) (by decide) (by decide)
+
+theorem unit_hi (b : Nat) (h : 128 ≤ b) : Unit [b] := unit_plain b (by omega) (by omega) (by omega)
+
+theorem unit_cons {b : Nat} {u : Str} (hb : Unit [b]) (hu : Unit u) : Unit (b :: u) := by
+  have := unit_append hb hu
+  simpa using this
+
+theorem unit_esc (s : Str) : Unit (esc s) := by
+  fun_induction esc s
+  case case1 => exact unit_nil
+  case case2 b0 r h ih => exact unit_append (unit_escAscii b0 h) ih
+  case case3 b0 h => exact unit_badSeq
+  case case4 b0 h b1 r1 hok ih =>
+    simp [ok2, cont] at hok
+    exact unit_cons (unit_hi b0 (by omega)) (unit_cons (unit_hi b1 (by omega)) ih)
+  case case5 b0 h b1 hok ih => exact unit_append unit_badSeq ih
+  case case6 b0 h b1 hok2 b2 r2 hok3 hls ih =>
+    refine unit_append (unit_lineSep _ ?_) ih
+    split <;> simp
+  case case7 b0 h b1 hok2 b2 r2 hok3 hls ih =>
+    simp [ok3, cont] at hok3
+    refine unit_cons (unit_hi b0 (by omega)) (unit_cons (unit_hi b1 ?_) (unit_cons (unit_hi b2 (by omega)) ih))
+    have := hok3.1.1.2
+    split at this <;> omega
+  case case8 b0 h b1 hok2 b2 hok3 ih => exact unit_append unit_badSeq ih
+  case case9 b0 h b1 hok2 b2 hok3 b3 r3 hok4 ih =>
+    simp [ok4, cont] at hok4
+    refine unit_cons (unit_hi b0 (by omega)) (unit_cons (unit_hi b1 ?_) (unit_cons (unit_hi b2 (by omega)) (unit_cons (unit_hi b3 (by omega)) ih)))
+    have := hok4.1.1.1.2
+    split at this <;> omega
+  case case10 b0 h b1 hok2 b2 hok3 b3 r3 hok4 ih => exact unit_append unit_badSeq ih
+
+/-! ## The reader on rendered objects -/
+
+def tokOf (f : Field) : Str × Tok :=
+  (f.key, match f.val with | .str s => .str (esc s) | .num i => .num (intDigits i))
+
+/-- Keys are plain printable text without quotes and backslashes (the struct tags of `jsonlEntry`). -/
+def KeyClean (f : Field) : Prop := ∀ c ∈ f.key, 32 ≤ c ∧ c ≠ 34 ∧ c ≠ 92
+
+theorem unit_clean (k : Str) (h : ∀ c ∈ k, 32 ≤ c ∧ c ≠ 34 ∧ c ≠ 92) : Unit k := by
+  induction k with
+  | nil => exact unit_nil
+  | cons c r ih =>
+    have hc := h c (by simp)
+    exact unit_cons (unit_plain c hc.1 hc.2.1 hc.2.2) (ih (fun x hx => h x (List.mem_cons_of_mem _ hx)))
+
+theorem scanStr_closed (u rest : Str) (h : Unit u) : scanStr 0 (u ++ 34 :: rest) = some (u, rest) := by
+  rw [h]
+  simp [scanStr, pre]
+
+def NumChar (c : Nat) : Prop := c = 45 ∨ (48 ≤ c ∧ c ≤ 57)
+
+theorem scanNum_stop (u : Str) (c : Nat) (rest : Str) (hu : ∀ x ∈ u, NumChar x) (hc : ¬ NumChar c) :
+    scanNum (u ++ c :: rest) = (u, c :: rest) := by
+  induction u with
+  | nil =>
+    unfold NumChar at hc
+    simp [scanNum, hc]
+  | cons x r ih =>
+    have hx := hu x (by simp)
+    unfold NumChar at hx
+    have := ih (fun y hy => hu y (List.mem_cons_of_mem _ hy))
+    simp [scanNum, hx, this, consFst]
+
+theorem natDigitsAux_num (f n : Nat) (acc : Str) (h : ∀ c ∈ acc, NumChar c) :
+    ∀ c ∈ natDigitsAux f n acc, NumChar c := by
+  induction f generalizing n acc with
+  | zero => simpa [natDigitsAux] using h
+  | succ f ih =>
+    unfold natDigitsAux
+    have h' : ∀ c ∈ (48 + n % 10) :: acc, NumChar c := by
+      intro c hc
+      rcases List.mem_cons.mp hc with rfl | hc
+      · right; omega
+      · exact h c hc
+    split
+    · exact h'
+    · exact ih _ _ h'
+
+theorem natDigitsAux_ne (f n : Nat) (acc : Str) (h : acc ≠ [] ∨ f ≠ 0) : natDigitsAux f n acc ≠ [] := by
+  induction f generalizing n acc with
+  | zero => simpa [natDigitsAux] using h
+  | succ f ih =>
+    unfold natDigitsAux
+    split
+    · simp
+    · exact ih _ _ (Or.inl (by simp))
+
+theorem intDigits_num (i : Int) : ∀ c ∈ intDigits i, NumChar c := by
+  intro c hc
+  unfold intDigits natDigits at hc
+  split at hc
+  · rcases List.mem_cons.mp hc with rfl | hc
+    · left; rfl
+    · exact natDigitsAux_num _ _ _ (by simp) c hc
+  · exact natDigitsAux_num _ _ _ (by simp) c hc
+
+theorem intDigits_ne (i : Int) : intDigits i ≠ [] := by
+  unfold intDigits natDigits
+  split
+  · simp
+  · exact natDigitsAux_ne _ _ _ (Or.inr (by omega))
+
+theorem intDigits_head (i : Int) : ∃ c r, intDigits i = c :: r ∧ c ≠ 34 := by
+  have hne := intDigits_ne i
+  have hnum := intDigits_num i
+  cases h : intDigits i with
+  | nil => exact absurd h hne
+  | cons c r =>
+    refine ⟨c, r, rfl, ?_⟩
+    have := hnum c (by simp [h])
+    unfold NumChar at this
+    omega
+
+theorem lexField_render (f : Field) (c : Nat) (rest : Str) (hk : KeyClean f) (hc : c = 44 ∨ c = 125) :
+    lexField (renderField f ++ c :: rest) = some (tokOf f, c :: rest) := by
+  have hnc : ¬ NumChar c := by unfold NumChar; omega
+  have hshape : renderField f ++ c :: rest = 34 :: (f.key ++ 34 :: 58 :: (renderVal f.val ++ c :: rest)) := by
+    simp [renderField]
+  rw [hshape]
+  unfold lexField
+  simp only [ne_eq, not_true_eq_false, if_false]
+  rw [scanStr_closed _ _ (unit_clean f.key hk)]
+  cases hv : f.val with
+  | str s =>
+    have hval : renderVal (.str s) ++ c :: rest = 34 :: (esc s ++ 34 :: c :: rest) := by simp [renderVal]
+    rw [hval]
+    simp only [not_true_eq_false, if_false, if_true]
+    rw [scanStr_closed _ _ (unit_esc s)]
+    simp [tokOf, hv]
+  | num i =>
+    obtain ⟨d, r, hd, hd34⟩ := intDigits_head i
+    have hs := scanNum_stop (intDigits i) c rest (intDigits_num i) hnc
+    have hval : renderVal (.num i) ++ c :: rest = d :: (r ++ c :: rest) := by simp [renderVal, hd]
+    rw [hd] at hs
+    rw [hval]
+    simp only [not_true_eq_false, if_false, hd34]
+    simp only [List.cons_append] at hs
+    rw [hs]
+    simp [tokOf, hv, hd]
+
+theorem lexFields_render (fs : List Field) (rest : Str) (hne : fs ≠ []) (hk : ∀ f ∈ fs, KeyClean f) (fuel : Nat)
+    (hf : fs.length ≤ fuel) :
+    lexFields fuel (renderFields fs ++ 125 :: rest) = some (fs.map tokOf, rest) := by
+  induction fs generalizing fuel with
+  | nil => exact absurd rfl hne
+  | cons f r ih =>
+    cases fuel with
+    | zero => simp at hf
+    | succ fuel =>
+      cases r with
+      | nil =>
+        simp only [renderFields, lexFields]
+        rw [lexField_render f 125 rest (hk f (by simp)) (Or.inr rfl)]
+        simp
+      | cons g r =>
+        simp only [renderFields, lexFields]
+        rw [List.append_assoc]
+        have : ([44] : Str) ++ (renderFields (g :: r) ++ 125 :: rest) = 44 :: (renderFields (g :: r) ++ 125 :: rest) := rfl
+        simp only [List.cons_append] at *
+        rw [lexField_render f 44 _ (hk f (by simp)) (Or.inl rfl)]
+        have ih' := ih (by simp) (fun x hx => hk x (List.mem_cons_of_mem _ hx)) fuel (by simpa using hf)
+        simp [ih']
+
+theorem renderField_len (f : Field) : 1 ≤ (renderField f).length := by simp [renderField]
+
+theorem renderFields_len (fs : List Field) : fs.length ≤ (renderFields fs).length := by
+  induction fs with
+  | nil => simp
+  | cons f r ih =>
+    cases r with
+    | nil => simpa [renderFields] using renderField_len f
+    | cons g r =>
+      simp only [renderFields, List.length_append, List.length_cons] at *
+      have := renderField_len f
+      omega
+
+/-- The reader gives back exactly the members that were rendered. -/
+theorem lexLine_render (fs : List Field) (hne : fs ≠ []) (hk : ∀ f ∈ fs, KeyClean f) :
+    lexLine (renderObj fs ++ [10]) = some (fs.map tokOf) := by
+  have hshape : renderObj fs ++ [10] = 123 :: (renderFields fs ++ 125 :: [10]) := by simp [renderObj]
+  rw [hshape]
+  unfold lexLine
+  simp only [ne_eq, not_true_eq_false, if_false]
+  rw [lexFields_render fs [10] hne hk _ (by
+    have := renderFields_len fs
+    simp only [List.length_append, List.length_cons]
+    omega)]
+  rfl
+
+theorem fieldsOf_clean (e : Entry) (rn : Nat) : ∀ f ∈ fieldsOf e rn, KeyClean f := by
+  intro f hf
+  unfold fieldsOf optStr optNum at hf
+  simp only [List.mem_append, List.mem_cons] at hf
+  unfold KeyClean
+  repeat' (first | (rcases hf with hf | hf) | (split at hf))
+  all_goals (first | (subst hf; simp) | simp at hf | skip)
+  all_goals (first | (intro c hc; simp at hc; omega) | (rename_i h; cases h) | (rename_i h _; cases h))
+
+theorem fieldsOf_ne (e : Entry) (rn : Nat) : fieldsOf e rn ≠ [] := by
+  unfold fieldsOf
+  simp
+
 end Agd.Record
+
